@@ -19,6 +19,10 @@ structure QInv (s : Shared) : Prop where
   handled_eq : s.handled = msgIds s.deqd
   drained_eq : s.drainedExits = s.deqd.count .drain
   stopped : .drain ∈ s.deqd → s.rxStopped = true
+  /-- the channel is closed only after the receiver left its loop … -/
+  closed_stopped : s.rxOpen = false → s.rxStopped = true
+  /-- … which it leaves because of the marker or for another reason (`rxStop`) -/
+  stopped_why : s.rxStopped = true → s.stoppedByOther = true ∨ .drain ∈ s.deqd
 
 theorem qinv_init (progs : List (List Op)) : QInv (init progs).sh := by
   constructor <;> simp [init, msgIds]
@@ -27,16 +31,18 @@ theorem qinv_stepThread {s s' : Shared} {stack stack' : List Frame}
     (hs : stepThread s stack = some (s', stack')) (h : QInv s) : QInv s' := by
   have e := stepThread_effect hs
   obtain ⟨l, h1, h2, _⟩ := e.chan
-  obtain ⟨c1, c2, c3, c4, c5⟩ := h
+  obtain ⟨c1, c2, c3, c4, c5, c6, c7⟩ := h
   constructor
   · rw [h1, h2, e.deqd, e.flushed, c1]; simp
   · rw [e.rxOpen, e.flushed]; exact c2
   · rw [e.handled, e.deqd]; exact c3
   · rw [e.drainedExits, e.deqd]; exact c4
   · rw [e.deqd, e.rxStopped]; exact c5
+  · rw [e.rxOpen, e.rxStopped]; exact c6
+  · rw [e.rxStopped, e.stoppedByOther, e.deqd]; exact c7
 
 theorem qinv_rx {s : Shared} (tid : Tid) (h : QInv s) : QInv (stepRx s tid) := by
-  obtain ⟨c1, c2, c3, c4, c5⟩ := h
+  obtain ⟨c1, c2, c3, c4, c5, c6, c7⟩ := h
   cases tid with
   | recv =>
     simp only [stepRx]
@@ -45,17 +51,17 @@ theorem qinv_rx {s : Shared} (tid : Tid) (h : QInv s) : QInv (stepRx s tid) := b
       simp only [Bool.and_eq_true, Bool.not_eq_true'] at hc
       have hf := c2 hc.1
       split
-      · exact ⟨c1, c2, c3, c4, c5⟩
+      · exact ⟨c1, c2, c3, c4, c5, c6, c7⟩
       · rename_i i q hq
         constructor <;> simp_all [msgIds_append, msgIds, List.count_append]
       · rename_i q hq
         constructor <;> simp_all [msgIds_append, msgIds, List.count_append]
-    · exact ⟨c1, c2, c3, c4, c5⟩
+    · exact ⟨c1, c2, c3, c4, c5, c6, c7⟩
   | rxStop => constructor <;> simp_all [stepRx]
   | rxClose => simp only [stepRx]; split <;> constructor <;> simp_all
   | rxFlush => simp only [stepRx]; split <;> constructor <;> simp_all
   | setStatus st => constructor <;> simp_all [stepRx]
-  | t i => exact ⟨c1, c2, c3, c4, c5⟩
+  | t i => exact ⟨c1, c2, c3, c4, c5, c6, c7⟩
 
 theorem qinv_step (g : G) (tid : Tid) (h : QInv g.sh) : QInv (step g tid).sh := by
   cases tid with
